@@ -84,7 +84,7 @@ def pv_truthy(pv):
 
 class Flags(set):
     """feature flags collected while the declaration list is computed; `real`: read the layout as the code does where an
-    open finding makes it deviate from the property (D33: a falsy condition callable is never consulted)"""
+    open finding makes it deviate from the property (D34: a falsy condition callable is never consulted)"""
     real = False
 
 
@@ -323,7 +323,7 @@ def x_loose_dup(nodes):
 
 def declared(case, real=False):
     """-> dict(entries, strict_dup, loose_dup, flags, invalid)   (entries: the generator's declaration list).
-    real=False: the property's reading; real=True: with the deviation of the open finding D33 applied."""
+    real=False: the property's reading; real=True: with the deviation of the open finding D34 applied."""
     entry, pick = case["entry"], case.get("pick")
     lay = L.with_ranks(case["layout"], entry, pick)
     flags, extra = Flags(), []
@@ -631,8 +631,8 @@ def _info(**kw):
 
 _PV = L._pv
 
-# minimal witness of the open finding D33 (= LccModel.C13.falsyCondWitness): the condition callable is itself a false value
-WITNESS_D33 = {"entry": "dir", "defect": None, "layout": {"name": "suites", "noise": False, "dirs": [], "mods": [
+# minimal witness of the open finding D34 (= LccModel.C13.falsyCondWitness): the condition callable is itself a false value
+WITNESS_D34 = {"entry": "dir", "defect": None, "layout": {"name": "suites", "noise": False, "dirs": [], "mods": [
     _m("m", tests=[_t("gated", pos=0, vis=_cond(_PV("bool", v=False), call="falsy-obj")), _t("normal", pos=1)])]}}
 
 # visible_if conditions returning values that are false without being False / true without being True, computed at load
@@ -713,7 +713,7 @@ class Load(C.Stream):
     quick_seconds = 38
     thorough_seconds = 420
     chunk = 60
-    corpus = [WITNESS_D18, WITNESS_D33] + COND_SHAPES + CORPUS_SHAPES
+    corpus = [WITNESS_D18, WITNESS_D34] + COND_SHAPES + CORPUS_SHAPES
 
     def gen(self, rng, i):
         lay = L.gen_layout(rng)
@@ -746,7 +746,7 @@ class Load(C.Stream):
         dec = declared(case)
         fails = self.judge(dec, obs)
         if fails and "falsy-callable-hides" in dec["flags"]:
-            # D33 (open): an item whose condition returns a false value is shown because the condition callable is itself a
+            # D34 (open): an item whose condition returns a false value is shown because the condition callable is itself a
             # false value (`md.condition and not md.condition(obj)` never calls it).  Judge the observation once more with
             # exactly that deviation applied: what remains is something else and is reported under its own signature.
             real = declared(case, real=True)
